@@ -9,6 +9,7 @@ import Hw.Topo.RenderOf
 import Hw.Topo.WF
 import Driver.Topo
 import Driver.Util
+import Driver.RestrictSide
 namespace Driver.RestrictEng
 open Hw.Topo Hw.Topo.Restrict Driver
 
@@ -68,6 +69,9 @@ structure State where
   before : Option (Except String Dump × List (List String)) := none
   call : Option Call := none
   selfcheck : Bool := false
+  side : Option Hw.Topo.RestrictSide.Side := none        -- side structures (distances, CPU kinds, memory attributes) as last adopted/predicted
+  sideBlock : Option (Bool × Nat) := none         -- inside a SIDE block: (init?, mask)
+  sideRaw : List (List String) := []              -- its lines, reversed
 
 def init (selfcheck : Bool) : State := { selfcheck := selfcheck }
 
@@ -83,9 +87,13 @@ def levelsOfDump (d : Dump) : List (List Nat) :=
     | some l => l.objs.map (fun i => match d.obj? i with | some o => o.gp | none => 0)
     | none => [])
 
-def verdict (st : State) (c : Call) (bd : Dump) (braw : List (List String)) (ad : Dump) (araw : List (List String)) : String :=
+/-- what the call does to the side structures: nothing (refused), restrict to the model's tree, or unknown -/
+inductive SideEffect where
+  | unchanged | restricted (t : Tree) | unknown
+
+def verdict (st : State) (c : Call) (bd : Dump) (braw : List (List String)) (ad : Dump) (araw : List (List String)) : String × SideEffect :=
   match treeOf bd with
-  | .error e => "MODEL-INPUT-ERROR before-dump-is-not-a-tree:" ++ e
+  | .error e => ("MODEL-INPUT-ERROR before-dump-is-not-a-tree:" ++ e, .unknown)
   | .ok tree =>
     let topo := topoOf bd tree
     -- the hypothesis of the exactness theorems must hold on every well-formed BEFORE dump (WF implies SetsOK)
@@ -99,10 +107,10 @@ def verdict (st : State) (c : Call) (bd : Dump) (braw : List (List String)) (ad 
       (if (typedT tree && puLeafT tree && isNormal tree.obj.type) || !(wfCheck bd).isEmpty then [] else ["hypothesis-typedT-fails-on-a-WF-before-dump"])
     let (topo', ret) := restrict topo c.set c.flags
     match ret with
-    | .rootRemoved => "MODEL-UNDEFINED root-would-be-removed"
+    | .rootRemoved => ("MODEL-UNDEFINED root-would-be-removed", .unknown)
     | .einval =>
       let probs := hyp ++ (if araw == braw then [] else ["einval-but-topology-changed"])
-      "ret=-1 errno=EINVAL" ++ (if probs.isEmpty then "" else " MISMATCH " ++ ",".intercalate probs)
+      ("ret=-1 errno=EINVAL" ++ (if probs.isEmpty then "" else " MISMATCH " ++ ",".intercalate probs), .unchanged)
     | .ok =>
       -- well-formedness must be preserved: clauses violated after the call that were not already violated before it
       let clause (s : String) : String := (s.splitOn "@").headD s
@@ -119,13 +127,41 @@ def verdict (st : State) (c : Call) (bd : Dump) (braw : List (List String)) (ad 
                           (extraOf tb (gpTable ad))) ad with
           | none => [] | some s => ["render-after:" ++ s]) ++
         (if (typedT topo'.tree && puLeafT topo'.tree && isNormal topo'.tree.obj.type) || !(typedT tree && puLeafT tree) then [] else ["hypothesis-typedT-not-preserved"])
-      "ret=0 errno=ok" ++ (if probs.isEmpty then "" else " MISMATCH " ++ ",".intercalate probs)
+      ("ret=0 errno=ok" ++ (if probs.isEmpty then "" else " MISMATCH " ++ ",".intercalate probs), .restricted topo'.tree)
+
+def sideObjs (t : Tree) : List Hw.Dist.Obj := (rowsT (-1) t).map (fun r => RestrictSide.mkObj r.type r.gp r.osidx)
+
+def applySide (s : Option Hw.Topo.RestrictSide.Side) : SideEffect → Option Hw.Topo.RestrictSide.Side
+  | .unchanged => s
+  | .restricted t => s.map (fun x => x.restrict (sideObjs t) t.obj.cpuset)
+  | .unknown => none
 
 def step (st : State) (line : String) : State × String :=
   let t := tokens line
   match t with
   | "echo" :: rest =>
-    ({ st with before := none, call := none, raw := [], part := {} }, " ".intercalate rest)
+    -- a new topology starts without side state (it is adopted by the next SIDE I block)
+    ({ st with before := none, call := none, raw := [], part := {}, sideBlock := none, sideRaw := [],
+               side := if rest.head? == some "topo" then none else st.side }, " ".intercalate rest)
+  | ["SIDE", tag, mask] =>
+    match parseNat mask with
+    | some m => if tag == "I" || tag == "O" then ({ st with sideBlock := some (tag == "I", m), sideRaw := [] }, ".") else (st, "bad-op")
+    | none => (st, "bad-op")
+  | ["SEND"] =>
+    match st.sideBlock with
+    | none => (st, "bad-op")
+    | some (true, m) =>
+      let lines := st.sideRaw.reverse
+      match RestrictSide.adopt lines with
+      | some s => ({ st with side := some s, sideBlock := none, sideRaw := [] },
+                   "sideinit mask=" ++ toString m ++ " " ++ RestrictSide.summary (RestrictSide.render s 7))
+      | none => ({ st with side := none, sideBlock := none, sideRaw := [] }, "MODEL-INPUT-ERROR side-observation-unparsable")
+    | some (false, m) =>
+      match st.side with
+      | none => ({ st with sideBlock := none, sideRaw := [] }, "MODEL-UNDEFINED no-side-state")
+      | some s =>
+        let (s', out) := RestrictSide.observeVerdict s m st.sideRaw.reverse
+        ({ st with side := some s', sideBlock := none, sideRaw := [] }, out)
   | ["restrict", set, flags, ret, err] =>
     match parseCSet set, parseNat flags with
     | some s, some f => ({ st with call := some ⟨s, f, ret, err⟩ }, ".")
@@ -143,13 +179,15 @@ def step (st : State) (line : String) : State × String :=
       else match st.before, st.call with
         | some (bd, braw), some c =>
           let out := match bd, d with
-            | .error e, _ => "MODEL-INPUT-ERROR before-dump-unparsable:" ++ e
-            | _, .error e => "MODEL-INPUT-ERROR after-dump-unparsable:" ++ e
+            | .error e, _ => ("MODEL-INPUT-ERROR before-dump-unparsable:" ++ e, SideEffect.unknown)
+            | _, .error e => ("MODEL-INPUT-ERROR after-dump-unparsable:" ++ e, SideEffect.unknown)
             | .ok bd, .ok ad => verdict st c bd braw ad raw
-          ({ st with part := {}, raw := [], before := none, call := none }, out)
+          ({ st with part := {}, raw := [], before := none, call := none, side := applySide st.side out.2 }, out.1)
         | _, _ => ({ st with part := {}, raw := [] }, "bad-op")
   | k :: _ =>
-    if k == "O" || k == "L" || k == "TD" then
+    if st.sideBlock.isSome && (k == "SD" || k == "SK" || k == "SA" || k == "ST" || k == "SI") then
+      ({ st with sideRaw := t :: st.sideRaw }, ".")
+    else if k == "O" || k == "L" || k == "TD" then
       let (p, _) := TopoEng.feed st.part t
       ({ st with part := p, raw := t :: st.raw }, ".")
     else (st, "bad-op")
